@@ -3,6 +3,7 @@ CONSTANTS
   KeepContestLevel = TRUE
   RestrictToWinners = TRUE
 INVARIANT InjectOK
+INVARIANT SigmoidOK
 INVARIANT ClientOK
 INVARIANT HistoryOK
 CONSTRAINT Finished
